@@ -306,6 +306,38 @@ func ruleINV1(c *Ctx) {
 			default:
 				c.OK(construct, p.InstrPos(ci), "every success path passes an invalidation of the written variable")
 			}
+			// element writes: the same element can be addressed by another selector text (F.Arr[F.I] vs F.Arr[0],
+			// F.M["k"] vs F.M[F.Key]), and those nodes are indexed under their own spelling only. What is indexed under
+			// the container covers all of them, so a successful element write must also invalidate the container variable.
+			cn := calleeName(ci)
+			if !(strings.HasSuffix(cn, "SetArrayValueAt") || strings.HasSuffix(cn, "SetMapValueAt")) || recv == nil {
+				continue
+			}
+			parentF := p.Field("ast", "Variable", "Variable")
+			q2 := &AQuery{Fn: fn, From: ci.(ssa.Instruction), Designated: des, Assume: AssumeNil,
+				IsTarget: func(in ssa.Instruction, st *AState) bool {
+					_, ok := in.(*ssa.Return)
+					return ok
+				},
+				IsBlocker: func(in ssa.Instruction, st *AState) bool {
+					call, ok := in.(ssa.CallInstruction)
+					if !ok || call.Common().StaticCallee() != m.resetVar || len(call.Common().Args) < 2 {
+						return false
+					}
+					f, base := fieldLoad(call.Common().Args[1])
+					return f == parentF && base == ssa.Value(recv)
+				},
+			}
+			r2 := q2.Run()
+			construct2 := construct + " also invalidates the container"
+			switch {
+			case r2.Overflow:
+				c.Undecided(construct2, p.InstrPos(ci), "path search exceeded its state budget")
+			case r2.Found != nil:
+				c.Fail(construct2, p.InstrPos(ci), fmt.Sprintf("a successful element write reaches the return at %s having reset only what is indexed under the selector spelling it was written through: a read of the same element through another selector text (F.Arr[0] after F.Arr[F.I] = …, F.M[F.Key] after F.M[\"k\"] = …) keeps its remembered value", p.InstrPos(r2.Found)), pathString(p, r2.Path)...)
+			default:
+				c.OK(construct2, p.InstrPos(ci), "every success path also resets the container variable (ResetVariable(e.Variable))")
+			}
 		}
 	}
 }
@@ -1704,6 +1736,10 @@ func ruleINV13(c *Ctx) {
 				case ssa.CallInstruction:
 					if bi, ok := in.Common().Value.(*ssa.Builtin); ok && (bi.Name() == "delete" || bi.Name() == "clear") && len(in.Common().Args) >= 1 {
 						if ff, _ := fromWM(in.Common().Args[0]); ff != nil {
+							if why := c.unreachablePruneOK(fn, in.(ssa.Instruction), ff); bi.Name() == "delete" && why == "" {
+								c.OK(fmt.Sprintf("%s / removes from WorkingMemory.%s only what no rule links to", fnName(fn), ff.Name()), p.InstrPos(in.(ssa.Instruction)), "delete of the range key under `not in the reachable set`, index rebuilt afterwards, set = the knowledge base's own catalogue")
+								continue
+							}
 							c.Fail(fmt.Sprintf("%s / removes from WorkingMemory.%s", fnName(fn), ff.Name()), p.InstrPos(in.(ssa.Instruction)), fmt.Sprintf("%s(…) on WorkingMemory.%s: nodes stay linked into the rules but lose their registration/index entry, so no later assignment or Forget clears what they remember", bi.Name(), ff.Name()))
 						}
 					}
@@ -1748,4 +1784,184 @@ func ruleINV13(c *Ctx) {
 		}
 	}
 	c.Notes = append(c.Notes, fmt.Sprintf("working-memory map writes found: %d", writes))
+}
+
+// unreachablePruneOK recognises the one legitimate removal from the working memory's registry: a garbage collection of
+// nodes that no rule entry links to. Returns "" when the delete has exactly that shape, otherwise the reason.
+//   for k, n := range recv.<registry> { if _, ok := reachable[n.AstID]; !ok { delete(recv.<registry>, k) } } ; recv.IndexVariables()
+// and every call site passes kb.MakeCatalog().Data for the receiver kb.WorkingMemory of the same kb.
+func (c *Ctx) unreachablePruneOK(fn *ssa.Function, del ssa.Instruction, f *types.Var) string {
+	p := c.P
+	if isIdxName(f.Name()) {
+		return "index maps are rebuilt, not pruned"
+	}
+	recv := receiver(fn)
+	if recv == nil || len(fn.Params) != 2 {
+		return "not a method (receiver, reachable set)"
+	}
+	set := ssa.Value(fn.Params[1])
+	call := del.(ssa.CallInstruction).Common()
+	if mf, base := fieldLoad(call.Args[0]); mf != f || base != ssa.Value(recv) {
+		return "deletes from another working memory than the receiver's"
+	}
+	var loop *Loop
+	for _, l := range naturalLoops(fn) {
+		if l.Blocks[del.Block()] {
+			if x := rangeOperand(l); x != nil {
+				if rf, rb := fieldLoad(x); rf == f && rb == ssa.Value(recv) {
+					loop = l
+				}
+			}
+		}
+	}
+	if loop == nil {
+		return "not inside a range over the same registry"
+	}
+	if !isRangeKeyOf(call.Args[1], loop) {
+		return "the key deleted is not the key being visited"
+	}
+	guarded := edgesDominate(fn, del, func(b *ssa.BasicBlock, si int) bool {
+		iff, isIf := b.Instrs[len(b.Instrs)-1].(*ssa.If)
+		if !isIf {
+			return false
+		}
+		kind, sTrue, okc := condOn(iff.Cond, func(v ssa.Value) bool {
+			ex, isEx := v.(*ssa.Extract)
+			if !isEx || ex.Index != 1 {
+				return false
+			}
+			lk, isLk := ex.Tuple.(*ssa.Lookup)
+			if !isLk || !lk.CommaOk || lk.X != set {
+				return false
+			}
+			kf, kb := fieldLoad(lk.Index)
+			return kf != nil && kf.Name() == "AstID" && isRangeValueOf(kb, loop)
+		})
+		return okc && kind == "bool" && si == 1-sTrue
+	})
+	if !guarded {
+		return "the delete is not under `the visited node's AstID is missing from the reachable set`"
+	}
+	idx := p.Method("ast", "WorkingMemory", "IndexVariables")
+	t, _ := reach(fn, del, func(in ssa.Instruction) bool { _, isRet := in.(*ssa.Return); return isRet }, func(in ssa.Instruction) bool {
+		ci, ok := in.(ssa.CallInstruction)
+		return ok && ci.Common().StaticCallee() == idx && len(ci.Common().Args) > 0 && ci.Common().Args[0] == ssa.Value(recv)
+	}, nil)
+	if t != nil || idx == nil {
+		return "the variable index is not rebuilt after the removal"
+	}
+	// call sites
+	mk := p.Method("ast", "KnowledgeBase", "MakeCatalog")
+	wmF := p.Field("ast", "KnowledgeBase", "WorkingMemory")
+	n := 0
+	for _, caller := range p.ModuleFuncs() {
+		for _, ci := range findCalls(caller, matchStatic(fn)) {
+			n++
+			args := ci.Common().Args
+			df, dbase := fieldLoad(args[1])
+			mkCall, isCall := dbase.(*ssa.Call)
+			if df == nil || df.Name() != "Data" || !isCall || mkCall.Call.StaticCallee() != mk {
+				return "a caller passes something other than KnowledgeBase.MakeCatalog().Data at " + p.InstrPos(ci.(ssa.Instruction))
+			}
+			wf, wbase := fieldLoad(args[0])
+			if wf != wmF || unspill(wbase) != unspill(mkCall.Call.Args[0]) {
+				return "the reachable set is catalogued from another knowledge base than the one whose working memory is pruned at " + p.InstrPos(ci.(ssa.Instruction))
+			}
+		}
+	}
+	if n == 0 {
+		return "no caller found"
+	}
+	return ""
+}
+
+func isIdxName(n string) bool { return strings.HasSuffix(n, "VariableMap") }
+
+func init() {
+	register("INV-14", "the memo flag is cleared only by the working memory's reset functions and, for its own action atom, by ThenExpression.Execute", 5, ruleINV14)
+}
+
+// INV-14 (who-may-write, the clearing side): a store of Evaluated=false anywhere else forgets a remembered value without
+// an invalidation event (C13) or, placed on the evaluation path, makes remembering pointless.
+func ruleINV14(c *Ctx) {
+	p := c.P
+	m := c.memo()
+	allowed := map[*ssa.Function]string{}
+	for _, f := range []*ssa.Function{m.resetVar, m.resetAll, m.reset} {
+		if f != nil {
+			allowed[f] = "working-memory reset function"
+		}
+	}
+	thenExec := p.Method("ast", "ThenExpression", "Execute")
+	atomF := p.Field("ast", "ThenExpression", "ExpressionAtom")
+	n := 0
+	for _, fn := range p.ModuleFuncs() {
+		if strings.HasSuffix(p.Pos(fn.Pos()), "_test.go") {
+			continue
+		}
+		for _, b := range fn.Blocks {
+			for _, in := range b.Instrs {
+				sf, base, val := fieldStore(in)
+				if sf == nil {
+					continue
+				}
+				if _, isEval := m.evalFields[sf]; !isEval {
+					continue
+				}
+				bv, isb := constBool(val)
+				if !isb || bv {
+					continue
+				}
+				n++
+				key := fmt.Sprintf("%s / clears %s", fnName(fn), p.fieldOwner(sf))
+				if why, ok := allowed[fn]; ok {
+					c.OK(key, p.InstrPos(in), why)
+					continue
+				}
+				if fn == thenExec {
+					if f, b2 := fieldLoad(base); f == atomF && b2 == ssa.Value(receiver(fn)) {
+						c.OK(key, p.InstrPos(in), "the action statement's own atom: an action is carried out on every firing")
+						continue
+					}
+				}
+				if _, isAlloc := base.(*ssa.Alloc); isAlloc {
+					c.OK(key, p.InstrPos(in), "initialisation of a node the function allocates itself")
+					continue
+				}
+				c.Fail(key, p.InstrPos(in), "a remembered value is dropped outside the working memory's reset functions: either an invalidation event the working memory does not know about, or remembering is switched off on this path (shared sub-expressions are then evaluated again and again)")
+			}
+		}
+	}
+	// the action atom is evaluated afresh: the store dominates the evaluation
+	if thenExec != nil {
+		ok := false
+		for _, ci := range callsIn(thenExec) {
+			call, isCall := ci.(*ssa.Call)
+			if !isCall || !calleeNameIs(call, "Evaluate") || len(call.Call.Args) == 0 {
+				continue
+			}
+			f, base := fieldLoad(call.Call.Args[0])
+			if f != atomF || base != ssa.Value(receiver(thenExec)) {
+				continue
+			}
+			// every path from entry to this call passes a store Evaluated=false on the same atom
+			t, _ := reach(thenExec, nil, func(in ssa.Instruction) bool { return in == ssa.Instruction(call) }, func(in ssa.Instruction) bool {
+				sf, sbase, val := fieldStore(in)
+				if sf == nil {
+					return false
+				}
+				if _, isEval := m.evalFields[sf]; !isEval {
+					return false
+				}
+				bv, isb := constBool(val)
+				bf, bb := fieldLoad(sbase)
+				return isb && !bv && bf == atomF && bb == ssa.Value(receiver(thenExec))
+			}, nil)
+			ok = t == nil
+		}
+		c.Check(ok, "ThenExpression.Execute / a call statement is carried out on every firing", p.Pos(thenExec.Pos()), "the action atom's memo flag is cleared before it is evaluated", "a method-call action (F.Inc();) is answered from the working memory when its rule, or a sibling with the same statement, fires again: the rule is reported as fired but the action does not run (built-in function calls are not remembered, method calls are)")
+	} else {
+		c.AnchorLost("(*ast.ThenExpression).Execute")
+	}
+	c.Notes = append(c.Notes, fmt.Sprintf("INV-14 stores of Evaluated=false: %d", n))
 }
